@@ -40,10 +40,7 @@ fixed("C05", "C05-field-signature-conflicts-accepted", "a4cb434", "shared (input
 fixed("C09", "C09-long-batch-answer-crash", "8266110", "downstream batch answer with one element too many: index out of range at queryer/multiop_queryer.go:159 killed the process")
 fixed("C09", "C09-short-batch-answer-masked", "8266110", "downstream batch answer one element short or empty: nil results returned with nil error, failure masked")
 fixed("C09", "C09-missing-data-masked", "a6df212", "downstream answer {} or {data:null} without errors was merged as an empty result with an empty errors list")
-known("C01", "C01-var-only-in-directive", ["var-only-in-directive"],
-      r"^errors: INVALID SUBREQUEST: Variable \"\$<var>\" is not defined\.$",
-      "a variable used only in @skip/@include is neither declared in the sub-request header nor forwarded (format.go walkArgumentList only looks at field arguments)",
-      witness='query($s:Boolean!){ n1s { name @skip(if:$s) } }')
+fixed("C01", "C01-var-only-in-directive", "c9e793a", 'query($s:Boolean!){ n1s { name @skip(if:$s) } }: a variable used only in @skip/@include was neither declared in the sub-request header nor forwarded (header and variable list were built from field arguments only); the service answered Variable "$s" is not defined')
 fixed("C01", "C01-var-default-lost", "3d1acbb", "query($v0:Int=3){ echo(x:$v0) } sent without variables: the sub-request header is synthesised from the schema and only provided values were forwarded, so the client's declared default never reached the service (its own argument default was used, or a required argument was reported missing)")
 known("C01", "C01-alias-is-id", ["alias-is-id"], r"^(errors: INVALID SUBREQUEST: Fields \"id\" conflict|diff:MISSING (id|<field>)$)",
       "an alias named `id` on another field collides with the injected helper id", witness="{ n1s { id: name } }")
@@ -82,9 +79,7 @@ known("C01", "C01-typename-aliased-in-union", ["union-field", "typename", "alias
       witness="{ u { a: __typename ... on N1 { name } } }")
 known("C01", "C01-alias-named-node", ["alias-is-helper-name"], r"^diff:MISSING node$",
       "a root field aliased `node` is treated like the Relay lookup by the executor's result handling", witness="{ node: leafs { __typename } }")
-known("C01", "C01-named-fragment-reused", ["frag-named-twice"], r"^diff:EXTRA (id|__typename)$",
-      "sanitizeSelectionSet mutates the shared fragment definition on first use; the second spread sees the injected helper as client-selected and does not register it for scrubbing",
-      witness="{ n2 { ...F } b: n2 { ...F } } fragment F on N2 { owner { calc } }")
+fixed("C01", "C01-named-fragment-reused", "bbfbc78", "{ n2 { ...F } b: n2 { ...F } } fragment F on N2 { owner { calc } }: sanitizeSelectionSet rewrote the shared fragment definition on first use; the second spread saw the injected helper as client-selected, did not register it for scrubbing and the client got id / __typename back")
 
 known("C01", "C01-same-key-across-fragment-explicit-id", ["same-response-key-across-fragment", "explicit-id"], r"^diff:MISSING id$",
       "one composite field selected twice under one response key, once directly and once through a fragment, with `id` requested explicitly in only one of the two: the helper `id` the planner adds for the other one is registered for scrubbing at the shared path and the client's own `id` is removed (sibling selections without a fragment are merged since fix 7dafd02)",
@@ -98,7 +93,6 @@ fixed("C01", "C01-same-response-key-siblings-not-merged", "7dafd02", "{ n1s { na
 C02 = [
  ("root-node", ["root-node"], [r"^plan-drops-client-field: (__typename|node|id|<field>)$", r"^subrequest-invalid: Cannot query field \"<x>\" on type \"<x>\"\.", r"^subrequest-invalid: Fields \"id\" conflict",
                 r"^plan-adds-non-helper-field$", r"^helper-not-registered-for-removal: (id|__typename)$", r"^subrequest-invalid: Expected \{, found"], RN),
- ("var-only-in-directive", ["var-only-in-directive"], [r"^subrequest-invalid: Variable \"\$<var>\" is not defined\.$"], "a variable used only in a directive is not declared in the sub-request"),
  ("alias-is-id", ["alias-is-id"], [r"^subrequest-invalid: Fields \"id\" conflict", r"^plan-drops-client-field: <field>$"], "alias named id collides with the injected helper id"),
  ("interface-field", ["interface-field"], [r"^subrequest-invalid: Expected \{, found", r"^plan-adds-non-helper-field$", r"^subrequest-invalid: Unknown type"], "interface-typed fields are rewritten into per-type fragments that may be empty or name types the receiver lacks"),
  ("node-typed-field", ["node-interface-field"], [r"^subrequest-invalid: Expected \{, found", r"^plan-adds-non-helper-field$", r"^subrequest-invalid: Unknown type", r"^plan-drops-client-field: ", r"^helper-not-registered-for-removal: "],
@@ -108,7 +102,6 @@ C02 = [
  ("shared-enum-extended", ["shared-enum-extended"], [r"^subrequest-invalid: Value \"<x>\" does not exist in \"<x>\" enum\.$", r"^subrequest-variable-error: "], "enum value known to one service only is forwarded to the other"),
  ("abstract-fragment-in-interface-field", ["interface-field", "frag-on-abstract"], [r"^plan-drops-client-field: (<field>|__typename)$"], "fragment on another interface inside an interface-typed field is dropped"),
  ("var-named-id", ["var-named-id"], [r"^subrequest-invalid: Variable \"\$id\" of type", r"^variable-value-differs: "], "client variable named id collides with the stitching variable"),
- ("named-fragment-reused", ["frag-named-twice"], [r"^helper-not-registered-for-removal: (id|__typename)$"], "a named fragment spread twice has its injected helper registered only for the first use"),
 ]
 for name, atoms, sigs, what in C02:
     for i, sg in enumerate(sigs):
@@ -140,18 +133,12 @@ known("C15", "C15-directive-arg-defaults-dropped", ["src:directivearg-default"],
 fixed("C15", "C15-directive-args-dropped", "74761fb", "json tag `arg` instead of `args`: custom directives of a remote schema were reconstructed without arguments")
 
 # ----------------------------------------------------------------------------- C16
-known("C16", "C16-typename-inside-introspection", ["isel-__typename"], r"^introspection (\w+#?\d*\.)?__typename(#\d+)?: (want string got null|MISSING)$",
-      "__typename selected inside __schema/__type objects is answered with null or left out (the introspection resolvers have no case for it); at the root next to __schema it is dropped too",
-      witness='{ __type(name:"N1") { __typename kind } }')
-known("C16", "C16-schema-description", ["isel-__schema", "isel-description"], r"^introspection __schema\.description: MISSING$",
-      "__schema { description } (declared by the prelude the gateway validates against) is not resolved: the key is missing", witness="{ __schema { description } }")
-known("C16", "C16-directive-isRepeatable", ["isel-isRepeatable"], r"^introspection directives\.isRepeatable: MISSING$",
-      "__Directive.isRepeatable (declared by the prelude) is not resolved: the key is missing", witness="{ __schema { directives { isRepeatable } } }")
-known("C16", "C16-introspection-mixed-with-data", ["icase-mixed-with-data"], r"^introspection n1s: MISSING$",
-      "when an operation selects __schema/__type together with data fields the gateway answers the introspection part only and drops the data fields (gateway.go:266-270)",
-      witness="{ __schema { queryType { name } } n1s { id } }")
-known("C16", "C16-deprecation-reason-default", ["ts-deprecated", "isel-deprecationReason"], r"^(introspection fields\.deprecationReason: VALUE|standard-client rebuild CHANGED field deprecated)$",
-      "@deprecated without a reason is reported with an empty deprecationReason instead of the default reason the schema carries", witness="type Dep { older: Int @deprecated }")
+fixed("C16", "C16-typename-inside-introspection", "3bb1ecf", '{ __type(name:"N1") { __typename kind } }: __typename selected inside introspection objects was answered with null or left out')
+fixed("C16", "C16-schema-description", "aa7147c", "{ __schema { description } }: the key was missing")
+fixed("C16", "C16-directive-isRepeatable", "6f0dd25", "{ __schema { directives { isRepeatable } } }: the key was missing")
+fixed("C16", "C16-introspection-mixed-with-data", "a13b1aa", "{ __schema { queryType { name } } n1s { id } }: the gateway answered the introspection part only and dropped the data fields")
+fixed("C01", "C01-root-typename", "a13b1aa", "{ __typename echo } / mutation { __typename incr(by:1) }: the operation's own __typename was planned as a step for the internal pseudo service and sent to it over HTTP (parse \"%#!\": invalid URL escape), the whole operation failed")
+fixed("C16", "C16-deprecation-reason-default", "39f8d88", "type Dep { older: Int @deprecated }: deprecationReason was empty instead of the directive's default reason")
 known("C16", "C16-second-gateway-loses-defaults-and-deprecations", ["icase-std-graphql-js"],
       r"^second-gateway rebuild (MISSING|CHANGED) (arg default|enumvalue deprecated|field deprecated|inputfield default|directivearg default)$",
       "a second gateway rebuilding this gateway's schema loses argument defaults, deprecations and mangles input defaults - the remote-introspection defects recorded under C15", witness="standard introspection of the gateway by introspection/remote.go")
